@@ -39,9 +39,15 @@ VALUE_CTORS = [("Null", [], {"Null"}), ("VBool", ["bool"], {"Bool", "Boolean"}),
 def ty_of_tokens(toks, self_ty=None):
     """Rust type tokens -> internal type"""
     t = [x for x in toks if not x.startswith("'")]
+    mref = False
     while t and t[0] in ("&", "mut", "&&", "dyn"):
+        if t[0] == "mut": mref = True
         t = t[1:]
-    s = "".join(t)
+    if mref:
+        # `&mut Value`, `&mut Vec<Value>`, `&mut Map<String, Value>`: a mutable reference INTO a document (lens mode)
+        base = ty_of_tokens(t, self_ty)
+        return ("mref", base) if base in LENSABLE else base
+    s = "".join((x + " ") if x == "mut" else x for x in t)
     s = re.sub(r"^(core|std|alloc)::(ops|borrow|string|vec)::", "", s)
     if s in ("usize", "u8", "u16", "u32", "u64", "char"): return "N"
     if s == "bool": return "bool"
@@ -68,8 +74,13 @@ def ty_of_tokens(toks, self_ty=None):
     m = re.fullmatch(r"([A-Za-z_][A-Za-z0-9_]*)(<.*>)?", s)
     if m:
         name = m.group(1)
+        if name in GENERICS: return GENERICS[name]
         return ("named", name)
     raise RsError(f"unsupported type {s!r}")
+
+
+LENSABLE = [("named", "Value"), ("list", ("named", "Value")), "map"]
+GENERICS = {"V": ("named", "Value")}          # type parameters instantiated at the document type (assign::Assigned<'v, V>)
 
 
 def retok(s):
@@ -104,6 +115,8 @@ def coq_ty(t):
         if t[0] == "named" and t[1] in ALIASES: return "str"
         if t[0] == "named" and t[1] == "Value": return "Value.value"
         if t[0] == "list": return f"(list {coq_ty(t[1])})"
+        if t[0] == "mref": return f"(lens {coq_ty(t[1])})"
+        if t[0] == "vacant": return "(lens Value.obj * str)"
         if t[0] == "opt": return f"(option {coq_ty(t[1])})"
         if t[0] == "res": return f"(result {coq_ty(t[1])} {coq_ty(t[2])})"
         if t[0] == "tuple": return "(" + " * ".join(coq_ty(x) for x in t[1]) + ")"
@@ -118,7 +131,7 @@ def ty_eq(a, b):
     if a == "?" or b == "?": return True
     if is_str(a) and is_str(b): return True
     if isinstance(a, tuple) and isinstance(b, tuple) and a[0] == b[0]:
-        if a[0] in ("opt", "list"): return ty_eq(a[1], b[1])
+        if a[0] in ("opt", "list", "mref"): return ty_eq(a[1], b[1])
         if a[0] == "res": return ty_eq(a[1], b[1]) and ty_eq(a[2], b[2])
         if a[0] == "tuple": return len(a[1]) == len(b[1]) and all(ty_eq(x, y) for x, y in zip(a[1], b[1]))
         if a[0] == "named": return a[1] == b[1]
@@ -140,6 +153,11 @@ class Ctx:
         self.lifted_keys = []
         self.skip_lets = set()
         self.mut_self = False
+        self.state_var = "self"     # the variable returned beside the result (`self` of a &mut self method, `root__` in lens mode)
+        self.lens = False
+        self.mod = None
+        self.poison = frozenset()   # lens-mode: reference variables that may be stale on the current control-flow path
+        self.closure_k = None       # continuation of the innermost inlined closure (`?` / return inside it leave the closure)
         self.loops = []             # stack of (break_code_fn, continue_code_fn)
 
     def fresh(self, base):
@@ -187,6 +205,17 @@ def assigned_vars(node, acc):
         for x in node: assigned_vars(x, acc)
 
 
+def has_ref(ty):
+    """does a value of this type hold a reference into the document?"""
+    if isinstance(ty, tuple):
+        if ty[0] in ("mref", "vacant"): return True
+        if ty[0] == "named": return ty[1] in ("Assigned", "Entry")
+        if ty[0] in ("opt", "list"): return has_ref(ty[1])
+        if ty[0] == "res": return has_ref(ty[1]) or has_ref(ty[2])
+        if ty[0] == "tuple": return any(has_ref(x) for x in ty[1])
+    return False
+
+
 POINTER_ONLY = {"is_root", "count", "front", "back", "first", "last", "split_front", "split_back", "parent", "intersection"}
 MUTATORS = {"push", "extend_from_slice", "push_str", "insert", "insert_str", "pop", "clear", "split_off", "remove"}
 
@@ -209,6 +238,7 @@ class Unit:
         self.consts = {}        # name -> ast
         self.fns = {}           # (impl, name) -> coq name, param types, ret type   (generated so far)
         self.mut_self_fns = set()
+        self.lens_fns = set()   # functions taking references into a document: return (document afterwards, result)
 
     def ctor_list(self, ty):
         """constructors of a type: [(coq_ctor, [field types], [field names]|None, rust_variant)]"""
@@ -220,6 +250,8 @@ class Unit:
             return [("Ok", [ty[1]], None, "Ok"), ("Err", [ty[2]], None, "Err")]
         if isinstance(ty, tuple) and ty[0] == "named" and ty[1] == "Value":
             return [(c, list(ft), None, names) for c, ft, names in VALUE_CTORS]
+        if isinstance(ty, tuple) and ty[0] == "named" and ty[1] == "Entry":      # serde_json / toml map::Entry (GenTreePrelude.entry)
+            return [("Entry_Occupied", [("mref", ("named", "Value"))], None, "Occupied"), ("Entry_Vacant", [("vacant",)], None, "Vacant")]
         if isinstance(ty, tuple) and ty[0] == "named":
             n = ty[1]
             if n in self.enums:
@@ -269,6 +301,38 @@ class Emitter:
     def __init__(self, unit):
         self.u = unit
 
+    # ---- returning, and the path-sensitive set of stale references (lens mode)
+    def ret(self, cx, term):
+        return f"Ret ({cx.state_var}, {term})" if cx.mut_self else f"Ret {term}"
+
+    def result_ty(self, cx):
+        return cx.ret_ty[1][1] if cx.mut_self else cx.ret_ty
+
+    def with_poison(self, cx, add, remove, thunk):
+        """emit thunk() as the code that runs AFTER an event that makes the variables `add` stale and `remove` fresh"""
+        old = cx.poison
+        cx.poison = (old | frozenset(add)) - frozenset(remove)
+        try: return thunk()
+        finally: cx.poison = old
+
+    def fresh_var(self, cx, name, thunk):
+        if name in cx.poison: return self.with_poison(cx, (), (name,), thunk)
+        return thunk()
+
+    def refs_in(self, env):
+        return [v for v in env if has_ref(env[v][1])]
+
+    def lens_write(self, x, newcur, env, cx, thunk):
+        """write `newcur` through the lens variable x: the document changes, x now shows the new content, every other
+        reference variable is stale (conservative: a later use of one is an error, never a silent mistranslation)"""
+        if not cx.lens: raise RsError("write through a reference outside lens mode")
+        others = [v for v in self.refs_in(env) if v != x]
+        return f"let root__ := snd {x} {newcur} in let {x} := lens_set {x} {newcur} in " + self.with_poison(cx, others, (), thunk)
+
+    def lens_write_tmp(self, lt, newcur, env, cx, thunk):
+        if not cx.lens: raise RsError("write through a reference outside lens mode")
+        return f"let root__ := snd {lt} {newcur} in " + self.with_poison(cx, self.refs_in(env), (), thunk)
+
     # ---- expressions: tr(e, env, cx, k) -> Gallina code (of type outcome R); k(term, ty) -> code
     def tr(self, e, env, cx, k):
         kind = e[0]
@@ -285,6 +349,7 @@ class Emitter:
         if kind == "path": return self.tr_path(e[1], env, cx, k)
         if kind == "unary":
             op = e[1]
+            if op == "&mut" and e[2][0] == "index": return self.tr_index(e[2], env, cx, k, want_lens=True)
             if op in ("&", "&mut", "*"): return self.tr(e[2], env, cx, k)
             if op == "!": return self.tr(e[2], env, cx, lambda t, ty: k(f"(negb {t})", "bool"))
             raise RsError(f"unary {op} not supported")
@@ -299,11 +364,11 @@ class Emitter:
         if kind == "match":
             return self.tr(e[1], env, cx, lambda t, ty: self.tr_arms(t, ty, e[2], env, cx, k))
         if kind == "return":
-            if cx.mut_self:
-                if e[1] is None: return "Ret (self, tt)"
-                return self.tr(e[1], env, cx, lambda t, ty: "Ret (self, " + self.coerce(t, ty, cx.ret_ty[1][1]) + ")")
-            if e[1] is None: return "Ret tt"
-            return self.tr(e[1], env, cx, lambda t, ty: "Ret " + self.coerce(t, ty, cx.ret_ty))
+            if cx.closure_k is not None:
+                if e[1] is None: return cx.closure_k("tt", "unit")
+                return self.tr(e[1], env, cx, lambda t, ty: cx.closure_k(t, ty))
+            if e[1] is None: return self.ret(cx, "tt")
+            return self.tr(e[1], env, cx, lambda t, ty: self.ret(cx, self.coerce(t, ty, self.result_ty(cx))))
         if kind == "break":
             if not cx.loops: raise RsError("break outside a loop")
             return cx.loops[-1][0]()
@@ -316,19 +381,24 @@ class Emitter:
                 # `?` on a syntactic Ok / Some / Err / None needs no match
                 if t.startswith("(Ok ") and t.endswith(")") and ty[0] == "res": return k(t[4:-1], ty[1])
                 if t.startswith("(Some ") and t.endswith(")") and ty[0] == "opt": return k(t[6:-1], ty[1])
+                ck = cx.closure_k            # inside an inlined closure `?` leaves the closure, not the function
                 if t.startswith("(Err ") and ty[0] == "res":
-                    rt_ = cx.ret_ty
+                    if ck is not None: return ck(t, ty)
+                    rt_ = self.result_ty(cx)
                     if not (isinstance(rt_, tuple) and rt_[0] == "res" and ty_eq(rt_[2], ty[2])): raise RsError("? with an error conversion is not supported")
-                    return "Ret " + t
-                if t == "None" and ty[0] == "opt": return "Ret None"
+                    return self.ret(cx, t)
+                if t == "None" and ty[0] == "opt": return ck("None", ("opt", "?")) if ck is not None else self.ret(cx, "None")
                 v = cx.fresh("v")
                 if ty[0] == "opt":
-                    return f"match {t} with Some {v} => {k(v, ty[1])} | None => Ret None end"
+                    none = ck("None", ("opt", "?")) if ck is not None else self.ret(cx, "None")
+                    return f"match {t} with Some {v} => {k(v, ty[1])} | None => {none} end"
                 er = cx.fresh("e")
-                rt = cx.ret_ty
+                if ck is not None:
+                    return f"match {t} with Ok {v} => {k(v, ty[1])} | Err {er} => {ck(f'(Err {er})', ('res', '?', ty[2]))} end"
+                rt = self.result_ty(cx)
                 if not (isinstance(rt, tuple) and rt[0] == "res" and ty_eq(rt[2], ty[2])):
                     raise RsError("? with an error conversion is not supported")
-                return f"match {t} with Ok {v} => {k(v, ty[1])} | Err {er} => Ret (Err {er}) end"
+                return f"match {t} with Ok {v} => {k(v, ty[1])} | Err {er} => {self.ret(cx, f'(Err {er})')} end"
             return self.tr(e[1], env, cx, after)
         if kind == "macro": return self.tr_macro(e, env, cx, k)
         if kind == "cast":
@@ -345,7 +415,9 @@ class Emitter:
     def tr_path(self, segs, env, cx, k):
         if len(segs) == 1:
             n = segs[0]
-            if n in env: return k(env[n][0], env[n][1])
+            if n in env:
+                if n in cx.poison: raise RsError(f"`{n}` may be a stale reference here (the document was written through another reference)")
+                return k(env[n][0], env[n][1])
             if n == "self" and "self" in env: return k("self", env["self"][1])
             cv = const_value(self.u, n)
             if cv: return k(f"{cv[0]} (* {n} *)" if False else cv[0], cv[1])
@@ -359,6 +431,7 @@ class Emitter:
                 if v == segs[1]:
                     if kind != "unit": raise RsError(f"{head}::{v} used without arguments")
                     return k(f"{head}_{v}", ("named", head))
+        if len(segs) == 2 and head == "Value" and segs[1] == "Null": return k("Null", ("named", "Value"))
         raise RsError(f"unknown path `{'::'.join(segs)}`")
 
     def tr_binary(self, e, env, cx, k):
@@ -412,7 +485,7 @@ class Emitter:
             raise RsError(f"field .{e[2]} of type {ty!r} not supported")
         return self.tr(e[1], env, cx, after)
 
-    def tr_index(self, e, env, cx, k):
+    def tr_index(self, e, env, cx, k, want_lens=False):
         base, idx = e[1], e[2]
         def after_b(bt, bty):
             bt = self.coerce(bt, bty, "str")
@@ -431,6 +504,11 @@ class Emitter:
             v = cx.fresh("b")
             return self.tr(idx, env, cx, lambda it, _: f"match idx_get {bt} {it} with Ret {v} => {k(v, 'N')} | Panic => Panic | OutOfFuel => OutOfFuel end")
         def after_any(bt, bty):
+            if isinstance(bty, tuple) and bty[0] == "mref" and isinstance(bty[1], tuple) and bty[1][0] == "list" and idx[0] != "range":
+                v = cx.fresh("el")
+                if want_lens:       # `&mut v[idx]`: a reference to the element (panics out of range like the read)
+                    return self.tr(idx, env, cx, lambda it, _: f"match lens_index {bt} {it} with Ret {v} => {k(v, ('mref', bty[1][1]))} | Panic => Panic | OutOfFuel => OutOfFuel end")
+                return self.tr(idx, env, cx, lambda it, _: f"match list_get (fst {bt}) {it} with Ret {v} => {k(v, bty[1][1])} | Panic => Panic | OutOfFuel => OutOfFuel end")
             if isinstance(bty, tuple) and bty[0] == "list" and idx[0] != "range":
                 v = cx.fresh("el")
                 return self.tr(idx, env, cx, lambda it, _: f"match list_get {bt} {it} with Ret {v} => {k(v, bty[1])} | Panic => Panic | OutOfFuel => OutOfFuel end")
@@ -444,6 +522,8 @@ class Emitter:
         if frm == ("named", "Token") and is_str(to): return f"(cow_text (Token_inner {t}))"
         if frm == "str" and to == "Cow": return f"(Cow_Borrowed {t})"
         if frm == "String" and to == "Cow": return f"(Cow_Owned {t})"
+        if frm == "map" and to == ("named", "Value"): return f"(Obj {t})"                  # `Table::default().into()`
+        if isinstance(frm, tuple) and frm[0] == "list" and to == ("named", "Value"): return f"(Arr {t})"
         if isinstance(frm, tuple) and isinstance(to, tuple) and frm[0] == to[0]:
             if frm[0] == "res":
                 if (frm[1] == to[1] or frm[1] == "?" ) and (frm[2] == to[2] or frm[2] == "?"): return t
@@ -501,7 +581,14 @@ class Emitter:
                     else: raise RsError("nested pattern in a closure parameter")
                 pre += f"let '({', '.join(names)}) := {t} in "
             else: raise RsError("closure parameter pattern not supported")
-        return pre + self.tr(c[2], env2, cx, k)
+        saved = cx.closure_k
+        def k2(t, ty):               # the code after the closure belongs to the enclosing scope again
+            inner = cx.closure_k; cx.closure_k = saved
+            try: return k(t, ty)
+            finally: cx.closure_k = inner
+        cx.closure_k = k2
+        try: return pre + self.tr(c[2], env2, cx, k2)
+        finally: cx.closure_k = saved
 
     def pure_closure_term(self, c, x, xty, env, cx):
         """if applying closure c to the variable x needs no sequencing (no panics, no calls of generated functions) return
@@ -565,7 +652,58 @@ class Emitter:
                 return k(f"(prim_to_index {rt})", ("res", ("named", "Index"), ("named", "ParseIndexError")))
             if tyname == "Token" and base == "to_string" and not args and ("Token", "decoded") in self.u.fns:
                 return self.call_generated_terms(("Token", "decoded"), [(rt, rty)], cx, lambda t, ty: k(f"(cow_text {t})", "String"))
+            # ---- references into the document (lens mode): Vec<Value> / Map / Entry behind `&mut`
+            if isinstance(rty, tuple) and rty[0] == "mref":
+                inner = rty[1]
+                isvar = rt in env and env[rt][0] == rt
+                if isinstance(inner, tuple) and inner[0] == "list":
+                    if base == "len" and not args: return k(f"(len (fst {rt}))", "N")
+                    if base == "is_empty" and not args: return k(f"(len (fst {rt}) =? 0)", "bool")
+                    if base == "remove" and len(args) == 1 and isvar:            # Vec::remove: panics when idx >= len
+                        v = cx.fresh("rm")
+                        return self.tr(args[0], env, cx, lambda it, _:
+                            f"match list_get (fst {rt}) {it} with Ret {v} => " +
+                            self.lens_write(rt, f"(remove_nth (N.to_nat {it}) (fst {rt}))", env, cx, lambda: k(v, inner[1])) +
+                            " | Panic => Panic | OutOfFuel => OutOfFuel end")
+                    if base == "push" and len(args) == 1 and isvar:
+                        return self.tr(args[0], env, cx, lambda at, aty:
+                            self.lens_write(rt, f"(fst {rt} ++ [{self.coerce(at, aty, inner[1])}])", env, cx, lambda: k("tt", "unit")))
+                if inner == "map":
+                    if base == "get_mut" and len(args) == 1:
+                        return self.tr(args[0], env, cx, lambda at, aty: k(f"(lens_get_mut {rt} {self.coerce(at, aty, 'str')})", ("opt", ("mref", ("named", "Value")))))
+                    if base == "get" and len(args) == 1:
+                        return self.tr(args[0], env, cx, lambda at, aty: k(f"(obj_lookup {self.coerce(at, aty, 'str')} (fst {rt}))", ("opt", ("named", "Value"))))
+                    if base == "len" and not args: return k(f"(len (fst {rt}))", "N")
+                    if base == "is_empty" and not args: return k(f"(len (fst {rt}) =? 0)", "bool")
+                    if base == "contains_key" and len(args) == 1:
+                        return self.tr(args[0], env, cx, lambda at, aty: k(f"(match obj_lookup {self.coerce(at, aty, 'str')} (fst {rt}) with Some _ => true | None => false end)", "bool"))
+                    if base == "entry" and len(args) == 1:
+                        return self.tr(args[0], env, cx, lambda at, aty: k(f"(lens_entry {rt} {self.coerce(at, aty, 'str')})", ("named", "Entry")))
+                    if base == "remove" and len(args) == 1 and isvar:            # Map::remove(key) -> Option<Value>
+                        v = cx.fresh("rm"); kk = cx.fresh("key")
+                        return self.tr(args[0], env, cx, lambda at, aty:
+                            f"let {kk} := {self.coerce(at, aty, 'str')} in let {v} := obj_lookup {kk} (fst {rt}) in " +
+                            self.lens_write(rt, f"(obj_remove {kk} (fst {rt}))", env, cx, lambda: k(v, ("opt", ("named", "Value")))))
+                    if base == "insert" and len(args) == 2 and isvar:            # Map::insert(key, v) -> Option<Value>
+                        v = cx.fresh("old"); kk = cx.fresh("key")
+                        return self.tr_list(args, env, cx, lambda ts:
+                            f"let {kk} := {self.coerce(ts[0][0], ts[0][1], 'str')} in let {v} := obj_lookup {kk} (fst {rt}) in " +
+                            self.lens_write(rt, f"(obj_insert {kk} {ts[1][0]} (fst {rt}))", env, cx, lambda: k(v, ("opt", ("named", "Value")))))
+                if inner == ("named", "Value"):
+                    if base == "into_mut" and not args: return k(rt, rty)        # OccupiedEntry::into_mut
+                    if base == "resolve_mut" and len(args) == 1 and (("mod", cx.mod), "resolve_mut") in self.u.fns:
+                        return self.call_generated((("mod", cx.mod), "resolve_mut"), [(rt, rty)], args, env, cx, k)
+                raise RsError(f"method .{name}() through a reference to {inner!r} not supported")
+            if rty == ("vacant",) and base == "insert" and len(args) == 1:       # VacantEntry::insert(v)
+                return self.tr(args[0], env, cx, lambda at, aty:
+                    self.lens_write_tmp(f"(fst {rt})", f"(obj_insert (snd {rt}) {self.coerce(at, aty, ('named', 'Value'))} (fst (fst {rt})))", env, cx, lambda: k("tt", "unit")))
+            if is_str(rty) and base == "resolve_mut" and len(args) == 1 and cx.lens and (("mod", cx.mod), "resolve_mut") in self.u.fns:
+                # Pointer::resolve_mut(value) = value.resolve_mut(self)  (trait dispatch to the backend of this module)
+                return self.tr(args[0], env, cx, lambda at, aty: self.call_generated_terms((("mod", cx.mod), "resolve_mut"), [(at, aty), (rt, rty)], cx, k, env))
             # ---- Result combinators
+            if isinstance(rty, tuple) and rty[0] == "res" and base == "ok" and not args:
+                y = cx.fresh("o")
+                return k(f"(match {rt} with Ok {y} => Some {y} | Err _ => None end)", ("opt", rty[1]))
             if isinstance(rty, tuple) and rty[0] == "res":
                 x = cx.fresh("o")
                 if base == "map_err" and len(args) == 1:
@@ -580,6 +718,8 @@ class Emitter:
                 x = cx.fresh("o")
                 return f"match {rt} with Some {x} => {k(f'(Ok {x})', ('res', rty[1], '?'))} | None => {self.tr(args[0], env, cx, lambda t, ty: k(f'(Err {t})', ('res', rty[1], ty)))} end"
             # ---- Map / Table and Vec<Value>
+            if rty == "map" and base == "contains_key" and len(args) == 1:
+                return self.tr(args[0], env, cx, lambda at, aty: k(f"(match obj_lookup {self.coerce(at, aty, 'str')} {rt} with Some _ => true | None => false end)", "bool"))
             if rty == "map" and base in ("get", "get_mut") and len(args) == 1:
                 return self.tr(args[0], env, cx, lambda at, aty: k(f"(obj_lookup {self.coerce(at, aty, 'str')} {rt})", ("opt", ("named", "Value"))))
             if isinstance(rty, tuple) and rty[0] == "list" and base == "len" and not args:
@@ -678,21 +818,30 @@ class Emitter:
             raise RsError(f"method .{name}() on {rty!r} not supported")
         return self.tr(recv, env, cx, after)
 
-    def call_generated_terms(self, key, allargs, cx, k):
+    def finish_call(self, key, coqname, a, rty, cx, k, env):
+        v = cx.fresh("r")
+        if key in self.u.lens_fns:
+            # the callee may have written through the references it was given: take the document it returns, and treat every
+            # reference variable of the caller as stale
+            if not cx.lens: raise RsError(f"call of the lens-mode function {coqname} outside lens mode")
+            if env is None: raise RsError("internal: lens call without an environment")
+            body = self.with_poison(cx, self.refs_in(env), (), lambda: k(f"(snd {v})", rty[1][1]))
+            return f"match {coqname} root__ {a} with Ret {v} => let root__ := fst {v} in {body} | Panic => Panic | OutOfFuel => OutOfFuel end"
+        return f"match {coqname} {a} with Ret {v} => {k(v, rty)} | Panic => Panic | OutOfFuel => OutOfFuel end"
+
+    def call_generated_terms(self, key, allargs, cx, k, env=None):
         coqname, ptys, rty = self.u.fns[key]
         if len(allargs) != len(ptys): raise RsError(f"arity mismatch calling {coqname}")
         a = " ".join(self.coerce(t, ty, pty) for (t, ty), pty in zip(allargs, ptys))
-        v = cx.fresh("r")
-        return f"match {coqname} {a} with Ret {v} => {k(v, rty)} | Panic => Panic | OutOfFuel => OutOfFuel end"
+        return self.finish_call(key, coqname, a, rty, cx, k, env)
 
     def call_generated(self, key, pre_args, args, env, cx, k):
         coqname, ptys, rty = self.u.fns[key]
         def after(ts):
             allargs = pre_args + ts
             if len(allargs) != len(ptys): raise RsError(f"arity mismatch calling {coqname}")
-            a = " ".join(self.coerce(t, ty, pty) if not (t.startswith("(") or re.fullmatch(r"\w+", t)) else self.coerce(t, ty, pty) for (t, ty), pty in zip(allargs, ptys))
-            v = cx.fresh("r")
-            return f"match {coqname} {a} with Ret {v} => {k(v, rty)} | Panic => Panic | OutOfFuel => OutOfFuel end"
+            a = " ".join(self.coerce(t, ty, pty) for (t, ty), pty in zip(allargs, ptys))
+            return self.finish_call(key, coqname, a, rty, cx, k, env)
         return self.tr_list(args, env, cx, after)
 
     def tr_call(self, e, env, cx, k):
@@ -715,6 +864,19 @@ class Emitter:
             return self.tr(args[0], env, cx, lambda t, ty: k("[]", "String"))
         if name in ("Vec::new", "String::new"): return k("[]", "String")
         if name in ("Map::new", "Table::new", "toml::Table::new", "serde_json::Map::new") and not args: return k("[]", "map")
+        if name in ("core::mem::replace", "mem::replace", "std::mem::replace") and len(args) == 2 and cx.lens:
+            def through(lt, lty):
+                if not (isinstance(lty, tuple) and lty[0] == "mref"): raise RsError("mem::replace on a non-reference in lens mode")
+                old_ = cx.fresh("old")
+                def with_new(t, ty):
+                    new = self.coerce(t, ty, lty[1])
+                    if lt in env and env[lt][0] == lt:
+                        return f"let {old_} := fst {lt} in " + self.lens_write(lt, new, env, cx, lambda: k(old_, lty[1]))
+                    tmp = cx.fresh("lens")
+                    return f"let {tmp} := {lt} in let {old_} := fst {tmp} in " + self.lens_write_tmp(tmp, new, env, cx, lambda: k(old_, lty[1]))
+                return self.tr(args[1], env, cx, with_new)
+            return self.tr(args[0], env, cx, through)
+        if name in ("Table::default", "Map::default", "toml::Table::default") and not args: return k("[]", "map")
         if name in ("core::mem::replace", "mem::replace", "std::mem::replace") and len(args) == 2 and place_var(args[0]) in env:
             x = place_var(args[0]); old_ = cx.fresh("old")
             return self.tr(args[1], env, cx, lambda t, ty: f"let {old_} := {x} in let {x} := {self.coerce(t, ty, env[x][1])} in {k(old_, env[x][1])}")
@@ -755,6 +917,7 @@ class Emitter:
                         "(" + f"{head}_{v} " + " ".join(self.coerce(t, ty, pt) for (t, ty), pt in zip(ts, ptys)) + ")", ("named", head)))
         # generated free function or associated function
         key = (None, segs[0]) if len(segs) == 1 else (head, segs[1]) if len(segs) == 2 else None
+        if len(segs) == 1 and (("mod", cx.mod), segs[0]) in self.u.fns: key = (("mod", cx.mod), segs[0])     # a function of the same module first
         if key in self.u.fns:
             return self.call_generated(key, [], args, env, cx, k)
         raise RsError(f"call of `{name}` not supported")
@@ -800,7 +963,13 @@ class Emitter:
                 if ps.at(";"): raise RsError("vec![x; n] not supported")
                 if not ps.eat(","): break
             return self.tr_list(items, env, cx, lambda ts: k("[" + "; ".join(t for t, _ in ts) + "]", ("list", ts[0][1] if ts else "?")))
-        if name in ("debug_assert", "debug_assert_eq", "debug_assert_ne"):
+        if name == "debug_assert":
+            # debug-profile meaning (panic when false); the equivalence proof then shows the assertion never fires, i.e. both
+            # profiles behave alike
+            ps = Parser(list(toks) + [("punct", ")", -1)])
+            cond = ps.parse_expr()
+            return self.tr(cond, env, cx, lambda ct, _: f"if {ct} then {k('tt', 'unit')} else Panic")
+        if name in ("debug_assert_eq", "debug_assert_ne"):
             raise RsError(f"{name}! changes behaviour between build profiles; not supported")
         raise RsError(f"macro {name}! not supported")
 
@@ -904,6 +1073,30 @@ class Emitter:
 
     def ctor_match(self, p, st, sty, env, cx, on_match, on_fail):
         """match st against constructor pattern p; sub-patterns may be bindings, wildcards, literals or constructors"""
+        if isinstance(sty, tuple) and sty[0] == "mref":
+            # `match dest { Value::Array(array) => .. }` with dest: &mut Value binds array: &mut Vec<Value>
+            if sty[1] != ("named", "Value"): raise RsError("pattern match through a reference to a non-Value")
+            if not re.fullmatch(r"\w+", st):
+                tmp = cx.fresh("scrut")
+                return f"let {tmp} := {st} in " + self.ctor_match(p, tmp, sty, env, cx, on_match, on_fail)
+            if p[0] == "p_ctor" and len(p[2]) == 1:
+                sub = p[2][0]
+                while sub[0] == "p_ref": sub = sub[1]
+                vname = p[1][-1]
+                if vname == "Array": c, lensf, fty = "Arr", "lens_arr", ("list", ("named", "Value"))
+                elif vname in ("Object", "Table"): c, lensf, fty = "Obj", "lens_obj", "map"
+                else: raise RsError(f"binding the payload of Value::{vname} through a reference is not supported")
+                raw = cx.fresh("raw")
+                if sub[0] == "p_wild":
+                    body = on_match(env)
+                elif sub[0] == "p_bind":
+                    env2 = dict(env); env2[sub[1]] = (sub[1], ("mref", fty))
+                    body = f"let {sub[1]} := {lensf} {st} {raw} in " + self.fresh_var(cx, sub[1], lambda: on_match(env2))
+                else: raise RsError("nested pattern under a reference is not supported")
+                return f"match fst {st} with | {c} {raw} => {body} | _ => {on_fail()} end"
+            if p[0] in ("p_path",) or (p[0] == "p_ctor" and all(x[0] in ("p_wild", "p_rest") for x in p[2])) or (p[0] == "p_struct" and not p[2]):
+                return self.ctor_match(p, f"(fst {st})", sty[1], env, cx, on_match, on_fail)
+            raise RsError("pattern through a reference not supported")
         if p[0] == "p_tuple":
             if not (isinstance(sty, tuple) and sty[0] == "tuple" and len(sty[1]) == len(p[1])): raise RsError("tuple pattern on a non-tuple")
             names = [cx.fresh("y") for _ in p[1]]
@@ -1000,7 +1193,7 @@ class Emitter:
             if pat[0] == "p_bind":
                 def after(t, ty):
                     env2 = dict(env); env2[pat[1]] = (pat[1], ty)
-                    return f"let {pat[1]} := {t} in {cont(env2)}"
+                    return f"let {pat[1]} := {t} in " + self.fresh_var(cx, pat[1], lambda: cont(env2))
                 return self.tr(init, env, cx, after)
             if pat[0] == "p_wild":
                 return self.tr(init, env, cx, lambda t, ty: cont(env))
@@ -1015,6 +1208,12 @@ class Emitter:
                     return f"let '({', '.join(names)}) := {t} in {cont(env2)}"
                 return self.tr(init, env, cx, after)
             raise RsError(f"let pattern {pat[0]} not supported")
+        if kind == "letelse":
+            # `let PAT = e else { diverges };`
+            pat, init, els = s[1], s[2], s[3]
+            def never(t, ty): raise RsError("the else block of a let-else must diverge (return / break / continue)")
+            return self.tr(init, env, cx, lambda t, ty: self.ctor_match(
+                pat, t, ty, env, cx, lambda env2: cont(env2), lambda: self.tr_block(els, env, cx, never)))
         if kind == "assign":
             lhs, op, rhs = s[1], s[2], s[3]
             if lhs[0] == "index" and place_var(lhs[1]) in env and op == "=":
@@ -1027,7 +1226,7 @@ class Emitter:
             x = place_var(lhs)
             if not (x and x in env): raise RsError("assignment to an unknown place")
             if op == "=":
-                return self.tr(rhs, env, cx, lambda t, ty: f"let {x} := {self.coerce(t, ty, env[x][1])} in {cont(env)}")
+                return self.tr(rhs, env, cx, lambda t, ty: f"let {x} := {self.coerce(t, ty, env[x][1])} in " + self.fresh_var(cx, x, lambda: cont(env)))
             if op == "+=":
                 return self.tr(rhs, env, cx, lambda t, ty: f"let {x} := ({x} + {t}) in {cont(env)}")
             if op == "-=":
@@ -1035,7 +1234,7 @@ class Emitter:
             raise RsError(f"assignment operator {op} not supported")
         if kind == "expr":
             e = s[1]
-            if e[0] == "mcall" and e[2] in MUTATORS and place_var(e[1]) in env and e[2] not in ("split_off",):
+            if e[0] == "mcall" and e[2] in MUTATORS and place_var(e[1]) in env and e[2] not in ("split_off",) and not has_ref(env[place_var(e[1])][1]):
                 x = place_var(e[1])
                 if e[2] == "push" and is_str(env[x][1]):
                     return self.tr(e[3][0], env, cx, lambda t, ty: f"let {x} := ({x} ++ [{t}]) in {cont(env)}")
@@ -1094,7 +1293,13 @@ class Emitter:
         mv = list(env) if lifted else self.loop_vars([cond, body], env)
         cx.nloops += 1
         name = f"{cx.fname}_loop{cx.nloops}" if lifted else cx.fresh("loop")
-        call = lambda: f"{name} fuel__ {' '.join(mv)}"
+        def stale_check():
+            bad = [v for v in mv if v in cx.poison]
+            if bad: raise RsError(f"loop-carried reference `{bad[0]}` may be stale at the start of an iteration")
+        stale_check()
+        def call():
+            stale_check()
+            return f"{name} fuel__ {' '.join(mv)}"
         after = lambda: cont(env)
         cx.loops.append((after, call))
         if cond[0] == "let":
@@ -1280,6 +1485,12 @@ def translate(repo, groups, types, fuel):
     em = Emitter(unit)
     for g, targets in groups:
         lines = out.setdefault(g, [])
+        if CONFIG.get("group_types", {}).get(g):
+            try:
+                lines += gen_types(unit, CONFIG["group_types"][g])
+                report["types"] += CONFIG["group_types"][g]
+            except RsError as e:
+                report["types_error"] = str(e)
         for t in targets:
             f, impl, name, coqname = t["file"], t.get("impl"), t["name"], t["coq"]
             trait = t.get("trait")
@@ -1304,8 +1515,11 @@ def translate(repo, groups, types, fuel):
                 ret_ty = t.get("ret") or (ty_of_tokens(ret, self_ty) if ret else "unit")
                 env, binders, ptys = {}, [], []
                 mut_self = bool(t.get("mut_self"))
+                lens = bool(t.get("lens"))
                 if mut_self:
                     ret_ty = ("tuple", [self_t, ret_ty])       # a `&mut self` method returns (self afterwards, result)
+                if lens:
+                    ret_ty = ("tuple", [("named", "Value"), ret_ty])     # (the document afterwards, result)
                 for p, pty in params:
                     if p == "self":
                         env["self"] = ("self", self_t); binders.append(f"(self : {coq_ty(self_t)})"); ptys.append(self_t)
@@ -1315,15 +1529,27 @@ def translate(repo, groups, types, fuel):
                         env[p[1]] = (p[1], ty); binders.append(f"({p[1]} : {coq_ty(ty)})"); ptys.append(ty)
                 cx = Ctx(unit, self_ty, ret_ty, coqname)
                 cx.skip_lets = set(t.get("skip_lets", []))
-                cx.mut_self = mut_self
-                if mut_self:
+                cx.mut_self = mut_self or lens
+                cx.mod = t.get("mod")
+                if lens:
+                    refs = [v for v in env if has_ref(env[v][1])]
+                    if len(refs) != 1: raise RsError("a lens-mode function must take exactly one reference into the document")
+                    cx.lens = True; cx.state_var = "root__"
+                    env["root__"] = ("root__", ("named", "Value"))
+                    binders.insert(0, "(root__ : Value.value)")      # the whole document the reference points into
+                    code = em.tr_block(body, env, cx, lambda tm, ty: "Ret (root__, " + em.coerce(tm, ty, ret_ty[1][1]) + ")")
+                elif mut_self:
                     code = em.tr_block(body, env, cx, lambda tm, ty: "Ret (self, " + em.coerce(tm, ty, ret_ty[1][1]) + ")")
                 else:
                     code = em.tr_block(body, env, cx, lambda tm, ty: "Ret " + em.coerce(tm, ty, ret_ty))
                 lines.append(f"(* {f}:{entry['lines'][0]}-{entry['lines'][1]}  {impl + '::' if impl else ''}{name} *)")
                 lines += cx.lifted
                 lines.append(f"Definition {coqname} {' '.join(binders)} : outcome {coq_ty(ret_ty)} :=\n{pretty(code)}.")
-                unit.fns[(t.get("self_ty", impl), name)] = (coqname, ptys, ret_ty)
+                keys = [(t.get("self_ty", impl), name)] + ([(("mod", t["mod"]), name)] if t.get("mod") else [])
+                for key_ in keys:
+                    unit.fns[key_] = (coqname, ptys, ret_ty)
+                    if lens: unit.lens_fns.add(key_)
+                    else: unit.lens_fns.discard(key_)
                 if mut_self: unit.mut_self_fns.add((t.get("self_ty", impl), name))
                 entry["status"] = "translated"
             except RsError as e:
@@ -1335,6 +1561,8 @@ CONFIG = {
     "types": ["InvalidEncoding", "EncodingError", "Token", "ParseError", "Index", "OutOfBoundsError",
               "Range", "RangeFrom", "RangeTo", "RangeInclusive", "RangeToInclusive", "RangeFull", "Bound",
               "ParseIntError", "InvalidCharacterError", "ParseIndexError", "ResolveError", "AssignError", "ReplaceError"],
+    # types that mention references into a document: emitted at the head of the group that uses them (after GenTreePrelude.lens)
+    "group_types": {"TreeMut": ["Assigned"]},
     # identifiers renamed while lexing a file (two modules both call their error type `Error`)
     "file_renames": {"src/resolve.rs": {"Error": "ResolveError"}, "src/assign.rs": {"Error": "AssignError"}},
     # one generated file per group: coq/Generated/Scan<Group>.v  (each imports ScanTypes and the groups before it)
@@ -1448,14 +1676,40 @@ CONFIG = {
             {"file": "src/assign.rs", "impl": None, "mod": "json", "name": "expand", "coq": "gen_json_expand"},
             {"file": "src/assign.rs", "impl": None, "mod": "toml", "name": "expand", "coq": "gen_toml_expand"},
         ]),
+        # the walks that MUTATE a document through `&mut` references, translated in lens mode: a reference is the pair
+        # (content, write-back into the document) of GenTreePrelude.lens; each function returns (document afterwards, result)
+        ("TreeMut", [
+            {"file": "src/resolve.rs", "impl": "Value", "mod": "json", "name": "resolve_mut", "coq": "gen_json_resolve_mut_lens", "self_ty": "JsonValueL",
+             "self_type": ("mref", ("named", "Value")), "lens": True},
+            {"file": "src/resolve.rs", "impl": "Value", "mod": "toml", "name": "resolve_mut", "coq": "gen_toml_resolve_mut_lens", "self_ty": "TomlValueL",
+             "self_type": ("mref", ("named", "Value")), "lens": True},
+            {"file": "src/delete.rs", "impl": "Value", "mod": "json", "name": "delete", "coq": "gen_json_delete", "self_ty": "JsonValueL",
+             "self_type": ("mref", ("named", "Value")), "lens": True, "ret": ("opt", ("named", "Value"))},
+            {"file": "src/delete.rs", "impl": "Value", "mod": "toml", "name": "delete", "coq": "gen_toml_delete", "self_ty": "TomlValueL",
+             "self_type": ("mref", ("named", "Value")), "lens": True, "ret": ("opt", ("named", "Value"))},
+            {"file": "src/assign.rs", "impl": None, "mod": "json", "name": "assign_scalar", "coq": "gen_json_assign_scalar", "lens": True},
+            {"file": "src/assign.rs", "impl": None, "mod": "json", "name": "assign_object", "coq": "gen_json_assign_object", "lens": True},
+            {"file": "src/assign.rs", "impl": None, "mod": "json", "name": "assign_array", "coq": "gen_json_assign_array", "lens": True},
+            {"file": "src/assign.rs", "impl": None, "mod": "json", "name": "assign_value", "coq": "gen_json_assign_value", "lens": True},
+            {"file": "src/assign.rs", "impl": "Value", "mod": "json", "name": "assign", "coq": "gen_json_assign", "self_ty": "JsonValueL",
+             "self_type": ("mref", ("named", "Value")), "lens": True, "ret": ("res", ("opt", ("named", "Value")), ("named", "AssignError"))},
+            {"file": "src/assign.rs", "impl": None, "mod": "toml", "name": "assign_scalar", "coq": "gen_toml_assign_scalar", "lens": True},
+            {"file": "src/assign.rs", "impl": None, "mod": "toml", "name": "assign_object", "coq": "gen_toml_assign_object", "lens": True},
+            {"file": "src/assign.rs", "impl": None, "mod": "toml", "name": "assign_array", "coq": "gen_toml_assign_array", "lens": True},
+            {"file": "src/assign.rs", "impl": None, "mod": "toml", "name": "assign_value", "coq": "gen_toml_assign_value", "lens": True},
+            {"file": "src/assign.rs", "impl": "Value", "mod": "toml", "name": "assign", "coq": "gen_toml_assign", "self_ty": "TomlValueL",
+             "self_type": ("mref", ("named", "Value")), "lens": True, "ret": ("res", ("opt", ("named", "Value")), ("named", "AssignError"))},
+        ]),
     ],
     # which earlier groups a group's functions call (imports of the generated file)
-    "deps": {"Slice": ["PtrOps"], "Buf": ["Token", "PtrOps"], "PtrBuild": ["Token", "PtrOps", "Buf"], "Index": ["=GenTreePrelude"], "Tree": ["Token", "PtrOps", "Slice", "Index", "=GenTreePrelude"]},
+    "deps": {"TreeMut": ["Token", "PtrOps", "Slice", "Index", "=GenTreePrelude", "Tree"], "Slice": ["PtrOps"], "Buf": ["Token", "PtrOps"], "PtrBuild": ["Token", "PtrOps", "Buf"], "Index": ["=GenTreePrelude"], "Tree": ["Token", "PtrOps", "Slice", "Index", "=GenTreePrelude"]},
     # fuel for `while` loops: (generated function, nesting depth) -> Gallina term over the parameters
     "fuel": {("gen_validate_bytes", 0): "S (length bytes)",
              ("gen_json_resolve", 0): "S (length ptr)", ("gen_json_resolve_mut", 0): "S (length ptr)",
              ("gen_toml_resolve", 0): "S (length ptr)", ("gen_toml_resolve_mut", 0): "S (length ptr)",
-             ("gen_json_expand", 0): "S (length remaining)", ("gen_toml_expand", 0): "S (length remaining)"},
+             ("gen_json_expand", 0): "S (length remaining)", ("gen_toml_expand", 0): "S (length remaining)",
+             ("gen_json_resolve_mut_lens", 0): "S (length ptr)", ("gen_toml_resolve_mut_lens", 0): "S (length ptr)",
+             ("gen_json_assign_value", 0): "S (length ptr)", ("gen_toml_assign_value", 0): "S (length ptr)"},
 }
 
 HEADER = ("(* GENERATED by tools/rs2v.py from the current source of the crate -- do not edit.\n"
